@@ -474,6 +474,107 @@ pub fn replay<D: Driver>(g: &Graph, d: &mut D, opts: &ReplayOpts) -> ReplayRepor
     rep
 }
 
+/// Replays behaviours produced by `tlc -simulate` (one `<<"SIM", "{json}">>` line per visited
+/// state: `l` level, `a` action that led here, `e` expected outputs, `obs` expected projection).
+pub fn replay_sim<D: Driver>(path: &str, d: &mut D, max_div: usize) -> anyhow::Result<ReplayReport> {
+    let f = std::fs::File::open(path)?;
+    let rdr = BufReader::with_capacity(1 << 20, f);
+    let mut rep = ReplayReport {
+        nodes: 0,
+        edges: 0,
+        init: 0,
+        covered: 0,
+        steps: 0,
+        walks: 0,
+        divergences: Vec::new(),
+        div_count: 0,
+        samples: Vec::new(),
+        complete: false,
+        act_hist: HashMap::new(),
+    };
+    let mut walk: Vec<Value> = Vec::new();
+    let mut sample: Vec<Value> = Vec::new();
+    let mut distinct: std::collections::HashSet<u64> = std::collections::HashSet::new();
+    'lines: for line in rdr.lines() {
+        let line = line?;
+        if !line.starts_with("<<\"REPLAY\"") {
+            continue;
+        }
+        let Some(js) = unwrap_tlc_line(&line, "REPLAY") else {
+            anyhow::bail!("malformed REPLAY line");
+        };
+        let steps: Value = serde_json::from_str(&js)?;
+        let steps = steps.as_array().cloned().unwrap_or_default();
+        if rep.samples.len() < 3 && sample.len() >= 3 {
+            rep.samples.push(Value::Array(std::mem::take(&mut sample)));
+        }
+        sample.clear();
+        d.reset();
+        walk.clear();
+        rep.walks += 1;
+        rep.init += 1;
+        for v in &steps {
+            let act = &v["a"];
+            let exp = &v["e"];
+            walk.push(act.clone());
+            if sample.len() < 12 {
+                sample.push(json!({"act": act, "expected": exp}));
+            }
+            let got = d.step(act);
+            rep.steps += 1;
+            rep.edges += 1;
+            {
+                use std::hash::{Hash, Hasher};
+                let mut h = std::collections::hash_map::DefaultHasher::new();
+                v["obs"].to_string().hash(&mut h);
+                act.to_string().hash(&mut h);
+                distinct.insert(h.finish());
+            }
+            *rep.act_hist.entry(d.act_label(act)).or_default() += 1;
+            let mut fields = d.diff_out(act, exp, &got);
+            let mut exp_full = json!({"out": exp});
+            let mut got_full = json!({"out": got});
+            let panicked = got.get("panic").and_then(Value::as_str).is_some_and(|s| !s.is_empty());
+            if fields.is_empty() && !panicked {
+                let go = d.obs();
+                let f2 = d.diff_obs(&v["obs"], &go);
+                if !f2.is_empty() {
+                    fields = f2.into_iter().map(|f| format!("obs.{f}")).collect();
+                    exp_full["obs"] = v["obs"].clone();
+                    got_full["obs"] = go;
+                }
+            }
+            if !fields.is_empty() {
+                rep.div_count += 1;
+                let fp = format!("{}|{}", d.act_label(act), fields.join(","));
+                if rep.divergences.len() < 400 {
+                    rep.divergences.push(Divergence {
+                        fingerprint: fp,
+                        walk: walk.clone(),
+                        step: walk.len() - 1,
+                        expected: exp_full,
+                        observed: got_full,
+                        fields,
+                    });
+                }
+                if rep.div_count as usize >= max_div {
+                    break 'lines;
+                }
+                break;
+            } else if panicked {
+                break;
+            }
+        }
+    }
+    if rep.samples.is_empty() && !sample.is_empty() {
+        rep.samples.push(Value::Array(sample));
+    }
+    rep.covered = distinct.len();
+    rep.nodes = distinct.len();
+    rep.complete = rep.div_count == 0;
+    Ok(rep)
+}
+
 /// Canonical form for multiset/set comparison: recursively sort arrays by their JSON text.
 pub fn canon(v: &Value) -> Value {
     match v {
